@@ -120,3 +120,28 @@ def gen_case(rng, refs, kinds_pool, max_clients=3, max_pkts=14, allow_big=True):
         delivered = replay(pkts, attach[i]) + list(range(attach[i], end))
         clients.append([k, gen_chmap(rng, k), delivered])
     return [refs, [[p[0], p[1]] for p in pkts], clients, events, rng.choice([1, 1, 2, 3])]
+
+
+def gen_pool_case(rng, kinds_pool=(WSP, WSP, WSP, WSRTSP, TCP)):
+    """buffer independence: 2-3 viewers of one stream, all attached before the first packet; one of them is
+    parked inside its data write while the others deliver the window's packets (and optionally a control
+    request is answered), then it is released"""
+    nv = rng.choice([2, 2, 3])
+    kinds = [rng.choice(kinds_pool) for _ in range(nv)]
+    # the adapters of one package share a buffer pool: mostly two viewers of the same family, one of them parked
+    r = rng.random()
+    family = WSP if r < 0.5 else WSRTSP if r < 0.85 else None
+    if family is not None:
+        kinds[0] = kinds[1] = family
+    # distinct payloads of equal and of different lengths: an overwritten buffer shows either way
+    pkts = gen_packets(rng, rng.randint(6, 12), False, max_small=600)
+    n = len(pkts)
+    parked = rng.randrange(2) if family is not None else rng.randrange(nv)
+    if kinds[parked] == TCP and rng.random() < 0.7:
+        parked = next((i for i, k in enumerate(kinds) if k != TCP), parked)
+    k0 = rng.randint(0, 3)
+    window = rng.randint(2, max(2, min(5, n - k0)))
+    ctrl = rng.choice([-1, -1] + list(range(nv)))
+    mode = rng.choice([1, 1, 2])
+    clients = [[k, gen_chmap(rng, k) if rng.random() < 0.4 else [0, 1, 2, 3], list(range(n))] for k in kinds]
+    return [0, [[p[0], p[1]] for p in pkts], clients, [k0, parked, mode, window, ctrl]]
